@@ -252,11 +252,12 @@ def gen_layer(key):
         if f[2] is None:
             continue
         isb = "true" if f[6] == "bool" else "false"
-        for (vs, vr) in set_vars:
-            w("    #[kani::proof] fn c17_%s_%s_value%s() { check_setter(%d, %s::%s, %s, %s); }\n" % (key, f[2], vs, k, ty, f[2], isb, vr))
-            w("    #[kani::proof] fn c17_%s_%s_frame%s() { check_setter_frame(%d, %s::%s, %s, %s); }\n" % (key, f[2], vs, k, ty, f[2], isb, vr))
+        for vi, (vs, vr) in enumerate(set_vars):
             tag = (" (first header byte fixed to %s)" % vr) if vs else ""
-            names.append(("c17_%s_%s_value%s" % (key, f[2], vs), "%s::%s: stored value = v reduced to %d bits (v itself when in range) or Err with nothing changed; other getters unchanged; re-parse reads the same value%s" % (ty, f[2], f[3], tag)))
+            if vi == 0:   # the value/re-parse claim does not depend on options being present: first variant only
+                w("    #[kani::proof] fn c17_%s_%s_value%s() { check_setter(%d, %s::%s, %s, %s); }\n" % (key, f[2], vs, k, ty, f[2], isb, vr))
+                names.append(("c17_%s_%s_value%s" % (key, f[2], vs), "%s::%s: stored value = v reduced to %d bits (v itself when in range) or Err with nothing changed; other getters unchanged; re-parse reads the same value%s" % (ty, f[2], f[3], tag)))
+            w("    #[kani::proof] fn c17_%s_%s_frame%s() { check_setter_frame(%d, %s::%s, %s, %s); }\n" % (key, f[2], vs, k, ty, f[2], isb, vr))
             names.append(("c17_%s_%s_frame%s" % (key, f[2], vs), "%s::%s: serialised bytes differ from the captured bytes only inside bit range %s%s" % (ty, f[2], f[5], tag)))
     w("}\n")
     hs = [
